@@ -40,6 +40,7 @@ func (c17) Info(tier string) fw.Info {
 			"oracle: no race report with a /repo frame; every expected line appears exactly once and whole; arguments echo the spawn-time values; every fin(id) event precedes the wait-returned event; a failing core's fatal interrupt is what the wait returns; the history of global reads/writes is linearizable per global (porcupine, register model). " +
 			"family shared-ro: globals holding ranges, int lists, str lists and strings which the cores only read, and range/list/str spawn arguments taken from a global, from a local of main shared by several spawns or from a literal, consumed by 2..8 cores at overlapping times through for / for+break (and re-entry) / for+continue / nested for / for over a local copy / index+len, with a host scheduling point tick() in every loop body and GOMAXPROCS set per case; oracle: every core prints exactly the result line its function prints in the sequential twin of the program (each `spawn f(..)` replaced by the call `f(..)`), plus the oracles above. " +
 			"family shared-path: the same for shared values which a core reaches through an expression: a global object, an object nested in an object, global lists of int lists / ranges / objects and object / list-of-lists spawn arguments (taken from a global, a part of a global, a shared local of main or a literal) hold the ranges, lists and strings; the iterable (or indexed value) of every loop form is a member, member-of-member, constant or computed index, member-then-index, index-then-member expression, the result of a call to a function returning a global or a part of one, or such an expression inside a grouping, block, if/else or cast; same twin oracle. " +
+			"family shared-obj: a global object, a singleton and the same singleton through an extraction parameter, never written, whose members (data fields, nested fields, to_json, keys) the 2..8 workers are the first to touch -- main only spawns; same twin oracle. " +
 			"family shared-code: the same for values written as literals in the code of the functions 2..8 cores execute at overlapping times (most cores the same function, so that they meet at the same source sites, also inside a helper all of them call, also main, also a child spawned by a worker): the iterable (or indexed value) of every loop form -- and of a loop over the elements of the elements of a str list -- is a str / range / int list / str list literal, or such a literal inside a grouping, block, if/else or cast, an element of a list literal, a member of an object literal, the result of a function whose body is the literal or which returns its parameter, a concatenation or a method result of literals; every operation has a literal (a source site) of its own; same twin oracle. " +
 			"family own-state: 2..8 cores which each build their own any-objects, lists, lists of lists, objects (with nested containers) and strings at source sites all cores evaluate (in the worker, in a helper, in a loop body, as a field / element of another literal, as a literal argument of a spawn, also of one spawn statement in a loop) and mutate them through set / push / push_front / insert / pop / element, field and compound assignment with tick() in every loop body; same twin oracle. " +
 			"family fatal: one core (sometimes two; a worker, a child of a worker or main) dies of integer/float division or remainder by zero, a negative power of zero, a negative shift count, an uncaught throw, unwrap of none, a failing cast, a failing assert, an index error, the call stack limit or the memory limit, raised 0..3 calls below the function the core was started with (plain, in for/if, while, try bodies, below a recursive function), all functions having names of 2..48 characters, while 1..6 other cores run forever or end early; oracle: the wait returns the fatal interrupt (class, kind, message, position) which the VM reports when main of a one-core twin program calls the failing function (of either failing function), and afterwards no goroutine stays inside Core.Run. " +
@@ -63,7 +64,7 @@ func (c17) Info(tier string) fw.Info {
 type Payload struct {
 	Seed  uint64 `json:"seed"`
 	Plan  uint64 `json:"plan"`
-	Shape string `json:"shape"` // print | globals | args | mixed | fail | nested | late-spawn | shared-ro | shared-path | shared-code | own-state | fatal
+	Shape string `json:"shape"` // print | globals | args | mixed | fail | nested | late-spawn | shared-ro | shared-path | shared-code | shared-obj | own-state | fatal
 	// ForceGap: always sleep in the wait lock-upgrade gap (pinned witnesses).
 	ForceGap bool `json:"force_gap,omitempty"`
 	// Procs: GOMAXPROCS for this case (0 = whatever the batch runs with).
@@ -166,6 +167,24 @@ func (c17) Cases(tier string, seed uint64) []fw.Case {
 			}
 		}
 	}
+	// family shared-obj (see sharedobj.go): objects and singletons whose members the workers are the first to touch.
+	rb := fw.NewRng(seed ^ 0xC170b1)
+	nso, soPlans := 8, 2
+	if tier == "thorough" {
+		nso, soPlans = 40, 4
+	}
+	soSeeds := make([]uint64, nso)
+	for i := range soSeeds {
+		soSeeds[i] = rb.Next()
+	}
+	for j := 0; j < soPlans; j++ {
+		for i := 0; i < nso; i++ {
+			plan := rb.Next()
+			for _, procs := range []int{2, 4, 16} {
+				cases = append(cases, fw.MkCase(fmt.Sprintf("c17-so-%03d-%d-p%d", i, j, procs), "threads", Payload{Seed: soSeeds[i], Plan: plan, Shape: "shared-obj", Procs: procs}))
+			}
+		}
+	}
 	// family fatal (see fatal.go): a core dying of every kind of fatal error, at every call depth, below functions
 	// with names of every length.
 	rf := fw.NewRng(seed ^ 0xC17fa7)
@@ -204,7 +223,7 @@ type spec struct {
 
 // roShape: the families whose oracle is the sequential twin.
 func roShape(shape string) bool {
-	return shape == "shared-ro" || shape == "shared-path" || shape == "own-state" || shape == "shared-code"
+	return shape == "shared-ro" || shape == "shared-path" || shape == "own-state" || shape == "shared-code" || shape == "shared-obj"
 }
 
 // roWhat says what the workers of a twin-judged family do.
@@ -214,6 +233,9 @@ func roWhat(shape string) string {
 	}
 	if shape == "shared-code" {
 		return "consuming only values written as literals in its own code (r id count checksum elements helper-result)"
+	}
+	if shape == "shared-obj" {
+		return "reading members of objects and singletons which no core ever writes and which main never touched (r id count checksum)"
 	}
 	return "consuming values which no core ever writes (r id count checksum elements)"
 }
@@ -227,6 +249,8 @@ func buildRO(p Payload, seq bool) spec {
 		return buildOwnState(p, seq)
 	case "shared-code":
 		return buildSharedCode(p, seq)
+	case "shared-obj":
+		return buildSharedObj(p, seq)
 	}
 	return buildSharedRO(p, seq)
 }
